@@ -128,6 +128,11 @@ def _cat():
                 h.make_node("If", ["c"], ["r"], then_branch=br("ReduceMax", "tb"), else_branch=br("ReduceMin", "eb"),
                             name="if0")], [nh.from_array(np.array(0, F32), "zero")], [2]
 
+    def seq_identity(ops):  # Identity on a SEQUENCE value (accepted from opset 14 on)
+        return [h.make_node("SplitToSequence", ["x"], ["s"], axis=0, keepdims=1, name="sts"),
+                h.make_node("Identity", ["s"], ["s2"], name="ids"),
+                h.make_node("ConcatFromSequence", ["s2"], ["r"], axis=0, name="cfs")], [], [2, 3]
+
     return {
         "split": ((11, 12, 13, 14, 15, 16, 17), split),
         "split_in": ((13, 14, 15, 16, 17), split_in),
@@ -146,6 +151,7 @@ def _cat():
         "clip": ((11, 12, 13, 17), clip),
         "plain": ((11, 13, 14, 16, 17), plain),
         "if_reduce": ((11, 13, 16, 17), if_reduce),
+        "seq_identity": ((14, 15, 16, 17), seq_identity),
     }
 
 
@@ -159,16 +165,46 @@ def catalogue():
     return _CAT
 
 
-def make_inline_model(name, opset):
+# (the installed onnx checker refuses a model that imports the default domain ONLY as "ai.onnx", and nodes whose
+#  domain field is "ai.onnx": those are not valid inlined models; the valid mixed spellings are exercised)
+SPELLINGS = ["both", "both-rev", "dup", "aionnx-lower", "empty-lower", "aionnx-much-lower", "ml-and-both"]
+
+
+def spelled_imports(spelling, opset):
+    """opset_import entries for the DEFAULT domain under its two spellings ("" and "ai.onnx")."""
+    return {
+        None: [("", opset)],
+        "aionnx": [("ai.onnx", opset)],
+        "both": [("", opset), ("ai.onnx", opset)],
+        "both-rev": [("ai.onnx", opset), ("", opset)],
+        "dup": [("", opset), ("", opset)],
+        "dup-aionnx": [("ai.onnx", opset), ("ai.onnx", opset)],
+        "aionnx-lower": [("", opset), ("ai.onnx", max(opset - 2, 7))],
+        "empty-lower": [("ai.onnx", opset), ("", max(opset - 2, 7))],
+        "aionnx-much-lower": [("", opset), ("ai.onnx", 7)],
+        "ml-and-both": [("ai.onnx.ml", 2), ("ai.onnx", opset), ("", opset)],
+    }[spelling]
+
+
+def make_inline_model(name, opset, spelling=None):
     import onnx
     from onnx import TensorProto as TP
     from onnx import helper as h
 
     _, builder = catalogue()[name]
     nodes, inits, oshape = builder(opset)
+    if spelling == "aionnx-nodes":
+        def respell(ns):
+            for nd in ns:
+                nd.domain = "ai.onnx"
+                for a in nd.attribute:
+                    if a.HasField("g"):
+                        respell(a.g.node)
+        respell(nodes)
     g = h.make_graph(nodes, "inl_" + name, [h.make_tensor_value_info("x", TP.FLOAT, list(X_SHAPE))],
                      [h.make_tensor_value_info("r", TP.FLOAT, oshape)], inits)
-    m = h.make_model(g, opset_imports=[h.make_operatorsetid("", opset)], ir_version=7)
+    m = h.make_model(g, opset_imports=[h.make_operatorsetid(d, v) for d, v in spelled_imports(spelling, opset)],
+                     ir_version=7)
     onnx.checker.check_model(m, full_check=True)  # "for any VALID inlined model"
     return m
 
@@ -289,7 +325,7 @@ class History:
         for it in case["items"]:
             try:
                 if it["k"] == "inline":
-                    m = make_inline_model(it["model"], it["opset"])
+                    m = make_inline_model(it["model"], it["opset"], it.get("spelling"))
                     (r,) = spox.inline(m)(self.x).values()
                 elif it["k"] == "native":
                     r = apply_native(it["op"], it["ver"], self.x)
@@ -316,7 +352,9 @@ class History:
                     return "err", f"item {ii} unusable: {self.item_err[ii]}", None
                 if comp is not None:
                     op = _opmod(comp[0])
-                    r = {"identity": op.identity, "neg": op.neg, "abs": op.abs, "add": lambda v: op.add(v, v)}[comp[1]](r)
+                    r = {"identity": op.identity, "neg": op.neg, "abs": op.abs, "add": lambda v: op.add(v, v),
+                         # a SEQUENCE / OPTIONAL requested output: forwarded by spox's own (never adapted) Identity
+                         "seq": lambda v: op.sequence_construct([v, v]), "opt": op.optional}[comp[1]](r)
                 outs[f"y{j}"] = r
             if b.get("route") == "graph":
                 self.x._rename("x")
@@ -336,6 +374,8 @@ def expected_values(case, bi, x=PROBE):
     out = {}
     for j, (ii, comp) in enumerate(case["builds"][bi]["use"]):
         it = case["items"][ii]
+        if comp is not None and comp[1] in ("seq", "opt"):
+            continue  # (no tensor value to compare)
         v = reference_value(it["model"], it["opset"], x) if it["k"] == "inline" else np_native(it["op"], x)
         out[f"y{j}"] = np.asarray(np_companion(comp, np.asarray(v, F32)), F32)
     return out
@@ -373,6 +413,8 @@ def judge_built(m, want, fresh=None):
     if fresh is not None and not any(k == "values" for k, _ in bad):
         for name, w in fresh.items():
             g = got.get(name)
+            if not (isinstance(w, np.ndarray) and w.dtype.kind == "f"):
+                continue  # sequence / optional outputs
             if g is None or g.shape != w.shape or not np.allclose(g, w, rtol=1e-5, atol=1e-6, equal_nan=True):
                 bad.append(("values-vs-fresh", f"output {name}: history build {None if g is None else g.tolist()} "
                                                f"fresh-object build {w.tolist()}"))
@@ -435,7 +477,10 @@ def gen_case(rng):
         r = rng.random()
         if r < 0.6:
             name = rng.choice(sorted(cat))
-            items.append({"k": "inline", "model": name, "opset": rng.choice(cat[name][0])})
+            it = {"k": "inline", "model": name, "opset": rng.choice(cat[name][0])}
+            if rng.random() < 0.4:
+                it["spelling"] = rng.choice(SPELLINGS)
+            items.append(it)
         elif r < 0.85:
             items.append({"k": "native", "op": rng.choice(NATIVE), "ver": rng.choice([17, 17, 18, 19])})
         else:
@@ -456,15 +501,24 @@ def gen_case(rng):
         idxs = [i for i in range(n_items) if rng.random() < 0.8] or [rng.randrange(n_items)]
         for n, ii in enumerate(idxs):
             comp = None
-            if n == 0 and top != 17 or rng.random() < 0.3:
+            if n == 0 and top != 17 or rng.random() < 0.4:
                 comp = [top if n == 0 else rng.choice([v for v in VERS if v <= top]),
-                        rng.choice(["identity", "neg", "add", "abs"])]
+                        rng.choice(["identity", "neg", "add", "abs", "identity", "neg", "seq", "opt"])]
             use.append([ii, comp])
         builds.append({"use": use, "drop": rng.random() < 0.3, "route": "graph" if rng.random() < 0.2 else "build"})
     return {"kind": "hist", "items": items, "builds": builds}
 
 
 HAND_CASES = [
+    # the default domain under BOTH spellings, "ai.onnx" at a lower version than the rest of the program, and a
+    # sequence / optional output (forwarded by spox's own Identity, which needs opset 14 / 16)
+    {"kind": "hist", "items": [{"k": "inline", "model": "plain", "opset": 14, "spelling": "aionnx-lower"}],
+     "builds": [{"use": [[0, [17, "seq"]]], "drop": False, "route": "build"},
+                {"use": [[0, [17, "opt"]]], "drop": False, "route": "build"}]},
+    {"kind": "hist", "items": [{"k": "inline", "model": "clip", "opset": 13, "spelling": "aionnx-lower"},
+                               {"k": "native", "op": "identity", "ver": 17}],
+     "builds": [{"use": [[0, None], [1, [17, "seq"]]], "drop": True, "route": "build"},
+                {"use": [[0, [19, "opt"]]], "drop": False, "route": "graph"}]},
     # the held-out witness family: an opset-13 Split (no sizes) inlined once; built with a v17 companion, then
     # together with a v19 operator (Split 18 needs num_outputs), then with v21
     {"kind": "hist", "items": [{"k": "inline", "model": "split", "opset": 13}],
